@@ -102,6 +102,9 @@ pub struct World {
     /// the inner service polls the connection it was handed for readiness before it sends (as a
     /// tower service that honours `poll_ready` does; the stock request executor does not)
     pub exec_polls_ready: bool,
+    /// the protocol only yields HTTP/1.1 connections, whatever version the request asked for (as when
+    /// ALPN settles on http/1.1)
+    pub h1_only_protocol: bool,
     pub dials: Vec<Dial>,
     pub conns: Vec<ConnState>,
     pub handoffs: Vec<Handoff>,
@@ -319,7 +322,7 @@ impl tower::Service<ProtocolRequest<HStream, Body>> for HProtocol {
         let mut stream = req.transport;
         stream.consumed = true;
         let d = stream.d;
-        let h2 = req.version == HttpProtocol::Http2;
+        let h2 = req.version == HttpProtocol::Http2 && !with(|w| w.h1_only_protocol);
         with(|w| {
             w.dials[d].stage = if w.split_handshake {
                 DialStage::HsPending
